@@ -58,8 +58,8 @@ Proof.
   unfold config_in_domain. rewrite !Bool.andb_true_iff, !eqos_normalizedb_true. tauto.
 Qed.
 Lemma not_known_split c : config_known c = false ->
-  known_rxo (c_off c) (c_req c) = false /\ known_partition (c_pub_part c) (c_sub_part c) = false.
-Proof. unfold config_known. apply Bool.orb_false_iff. Qed.
+  known_partition (c_pub_part c) (c_sub_part c) = false.
+Proof. unfold config_known. auto. Qed.
 
 Lemma code_pair_match_sym x y : code_pair_match x y = code_pair_match y x.
 Proof.
@@ -86,12 +86,12 @@ Theorem writer_side_matched_iff_spec c :
   config_in_domain c = true -> config_known c = false ->
   (writer_side c = Some VMatched <-> dds_should_match c = true).
 Proof.
-  intros D K. apply in_domain_split in D as (No & Nr & Sp & Ss). apply not_known_split in K as (Kr & Kp).
+  intros D K. apply in_domain_split in D as (No & Nr & Sp & Ss). apply not_known_split in K as Kp.
   unfold writer_side, decide, dds_should_match.
   rewrite (partition_match_eq_spec (c_sub_part c) (c_pub_part c) Ss Sp)
     by (rewrite known_partition_sym; exact Kp).
   rewrite (dds_partition_match_sym (c_sub_part c) (c_pub_part c)).
-  pose proof (reader_side_eq_spec (c_off c) (c_req c) No Nr Kr) as R.
+  pose proof (reader_side_eq_spec (c_off c) (c_req c) No Nr) as R.
   destruct (c_topic_eq c), (c_type_eq c), (dds_partition_match (c_pub_part c) (c_sub_part c));
     cbn [negb andb]; try (split; discriminate).
   rewrite <- R. split.
@@ -115,14 +115,14 @@ Theorem writer_side_reports_incompatible c :
   config_in_domain c = true -> config_known c = false -> dds_incompatible_pair c = true ->
   exists v, writer_side c = Some v /\ names_exactly v (spec_failing (c_off c) (c_req c)).
 Proof.
-  intros D K I. apply in_domain_split in D as (No & Nr & Sp & Ss). apply not_known_split in K as (Kr & Kp).
+  intros D K I. apply in_domain_split in D as (No & Nr & Sp & Ss). apply not_known_split in K as Kp.
   unfold dds_incompatible_pair in I. rewrite !Bool.andb_true_iff, Bool.negb_true_iff in I.
   destruct I as (((Ht & Hy) & Hp) & Hx).
   unfold writer_side, decide.
   rewrite (partition_match_eq_spec (c_sub_part c) (c_pub_part c) Ss Sp)
     by (rewrite known_partition_sym; exact Kp).
   rewrite (dds_partition_match_sym (c_sub_part c) (c_pub_part c)), Ht, Hy, Hp. cbn [negb].
-  pose proof (reader_reported_policies_exact (c_off c) (c_req c) No Nr Kr) as Ex.
+  pose proof (reader_reported_policies_exact (c_off c) (c_req c) No Nr) as Ex.
   pose proof (NoDup_reader_incompatible (c_off c) (c_req c)) as ND.
   destruct (reader_incompatible (c_off c) (c_req c)) as [|id t] eqn:E.
   - exfalso. apply (dds_rxo_false_failing _ _ Hx).
